@@ -15,10 +15,16 @@ CLASSES = {
     "part": lambda h: h / 3,
     "all": lambda h: h,
     "all+": lambda h: h * (1 + Decimal("5e-6")),
+    "all-": lambda h: h * (1 - Decimal("5e-6")),  # inside Asset.sub's snap band from below: the debit empties the wallet, a refund does not restore it
     "over": lambda h: h * Decimal("1.5") + Decimal("1e-9"),
     "huge": lambda h: Decimal(10) ** 12,
 }
-DEVIANT = {"0", "dust", "all+", "over", "huge"}
+DEVIANT = {"0", "dust", "all+", "all-", "over", "huge"}
+
+
+def _bal(c, token):
+    """wallet balance; a missing wallet entry is a zero balance (so that entry presence alone never changes what an operation is asked to do)"""
+    return c.broker.get_token_balance(token) if token in c.broker.assets else Decimal(0)
 
 
 def amount(cls, holding):
@@ -114,7 +120,8 @@ class UniAdapter:
         bal_q = ctx.broker.get_token_balance(quote) if quote in ctx.broker.assets else Decimal(0)
         out = []
         pairs = [("part", "part"), ("all", "all"), ("all+", "all+"), ("over", "over"), ("part", "over"), ("over", "part"),
-                 ("huge", "part"), ("part", "huge"), ("0", "0"), ("dust", "dust"), ("0", "part"), ("part", "0")]
+                 ("huge", "part"), ("part", "huge"), ("0", "0"), ("dust", "dust"), ("0", "part"), ("part", "0"), ("all-", "huge"), ("huge", "all-"),
+                 ("all-", "over"), ("over", "all-")]
         for rname, (lo, hi) in self.ranges.items():
             for cb, cq in pairs:
                 dev = cb in DEVIANT or cq in DEVIANT
@@ -122,8 +129,8 @@ class UniAdapter:
                     continue
 
                 def call(c, lo=lo, hi=hi, cb=cb, cq=cq):
-                    b = c.broker.get_token_balance(base)
-                    q = c.broker.get_token_balance(quote)
+                    b = _bal(c, base)
+                    q = _bal(c, quote)
                     return m.add_liquidity_by_tick(lo, hi, amount(cb, b), amount(cq, q))
                 lent = PositionInfo(lo, hi) in m._positions and m._positions[PositionInfo(lo, hi)].transferred
                 out.append(Op(f"{name}.add[{rname},{cb},{cq}]", call, dev, f"{name}.add_liquidity_by_tick", {"revalues": lent}))
@@ -133,7 +140,7 @@ class UniAdapter:
         lo, hi = self.ranges["in"]
         out.append(Op(f"{name}.add_by_price[part]", lambda c: m.add_liquidity(
             min(m.tick_to_price(lo), m.tick_to_price(hi)), max(m.tick_to_price(lo), m.tick_to_price(hi)),
-            c.broker.get_token_balance(quote) / 3, c.broker.get_token_balance(base) / 3), False, f"{name}.add_liquidity"))
+            _bal(c, quote) / 3, _bal(c, base) / 3), False, f"{name}.add_liquidity"))
         out.append(Op(f"{name}.add_by_price[None]", lambda c: m.add_liquidity(
             min(m.tick_to_price(lo), m.tick_to_price(hi)), max(m.tick_to_price(lo), m.tick_to_price(hi))), True,
             f"{name}.add_liquidity"))
@@ -177,20 +184,20 @@ class UniAdapter:
                 out.append(Op(f"{name}.collect[{tag},{c0},{c1}]", call, c0 in ("over", "0") or not exists, f"{name}.collect_fee"))
         for cls in ("part", "all", "all+", "over", "dust", "0"):
             def sell(c, cls=cls):
-                return m.sell(amount(cls, c.broker.get_token_balance(base)))
+                return m.sell(amount(cls, _bal(c, base)))
             out.append(Op(f"{name}.sell[{cls}]", sell, cls in DEVIANT, f"{name}.sell",
                           {"swap": True, "fee_value": lambda c, ret, row: F(ret[0]) * F(row[base.name])}))
 
             def buy(c, cls=cls):
                 price = m.market_status.data.price
-                affordable = c.broker.get_token_balance(quote) * (1 - m.pool_info.fee_rate) / price
+                affordable = _bal(c, quote) * (1 - m.pool_info.fee_rate) / price
                 return m.buy(amount(cls, affordable))
             out.append(Op(f"{name}.buy[{cls}]", buy, cls in DEVIANT, f"{name}.buy",
                           {"swap": True, "fee_value": lambda c, ret, row: F(ret[0]) * F(row[quote.name])}))
         for cls in ("part", "over"):
-            out.append(Op(f"{name}.swap[base->quote,{cls}]", lambda c, cls=cls: m.swap(amount(cls, c.broker.get_token_balance(base)), base, quote),
+            out.append(Op(f"{name}.swap[base->quote,{cls}]", lambda c, cls=cls: m.swap(amount(cls, _bal(c, base)), base, quote),
                           cls in DEVIANT, f"{name}.swap", {"swap": True, "fee_value": lambda c, ret, row: F(ret[0]) * F(row[base.name])}))
-            out.append(Op(f"{name}.swap[quote->base,{cls}]", lambda c, cls=cls: m.swap(amount(cls, c.broker.get_token_balance(quote)), quote, base),
+            out.append(Op(f"{name}.swap[quote->base,{cls}]", lambda c, cls=cls: m.swap(amount(cls, _bal(c, quote)), quote, base),
                           cls in DEVIANT, f"{name}.swap", {"swap": True, "fee_value": lambda c, ret, row: F(ret[0]) * F(row[quote.name])}))
         out.append(Op(f"{name}.swap[same]", lambda c: m.swap(Decimal(1), base, base), True, f"{name}.swap", {"swap": True}))
         out.append(Op(f"{name}.even_rebalance", lambda c: m.even_rebalance(), False, f"{name}.even_rebalance", {"swap": True}))
@@ -198,7 +205,7 @@ class UniAdapter:
             for cls in ("None", "part", "over"):
                 def byval(c, rlo=rlo, rhi=rhi, cls=cls):
                     price = m.market_status.data.price
-                    total = c.broker.get_token_balance(quote) + c.broker.get_token_balance(base) * price
+                    total = _bal(c, quote) + _bal(c, base) * price
                     return m.add_liquidity_by_value(rlo, rhi, None if cls == "None" else amount(cls, total))
                 out.append(Op(f"{name}.add_by_value[{rname},{cls}]", lambda c, f=byval: spied(c, m, lambda: f(c)), cls != "part",
                               f"{name}.add_liquidity_by_value", {"swap": True, "multi": True, "market": m}))
